@@ -49,6 +49,8 @@ def ordinals(program, qn):
             out['ltail'] = k
         elif isinstance(n.target, ast.Tuple) and [getattr(e, 'id', None) for e in n.target.elts] == ['rkval', 'rrowgrp']:
             out['rtail'] = k
+        elif isinstance(n.target, ast.Name) and n.target.id == 'row' and isinstance(n.iter, ast.Name) and n.iter.id == 'lrowgrp':
+            out.setdefault('rows_of_left_group', []).append(k)
     return out
 
 
@@ -118,7 +120,8 @@ def make(lo_flag, ro_flag, fname='iterjoin'):
               it.set_var(env, 'lkval', GKey(z3.Select(lg.arr, lg.pos - 1)))
               it.set_var(env, 'rkval', GKey(z3.Select(rg.arr, rg.pos - 1)))
               it.set_var(env, 'lrowgrp', group_iter('L', lg.pos - 1))
-              it.set_var(env, 'rrowgrp', group_iter('R', rg.pos - 1))
+              if env.has('rrowgrp'):
+                  it.set_var(env, 'rrowgrp', group_iter('R', rg.pos - 1))
               if env.has('rstarted'):
                   it.set_var(env, 'rstarted', True)
 
@@ -131,7 +134,7 @@ def make(lo_flag, ro_flag, fname='iterjoin'):
                            lk.v == kL(i) if isinstance(lk, CmpObj) else z3.BoolVal(False),
                            rk.v == kR(j) if isinstance(rk, CmpObj) else z3.BoolVal(False),
                            z3.BoolVal(getattr(ls['lrowgrp'], 'group_elem', None) is not None) and getattr(ls['lrowgrp'], 'group_elem') == z3.Select(lg.arr, i),
-                           getattr(ls['rrowgrp'], 'group_elem') == z3.Select(rg.arr, j) if getattr(ls['rrowgrp'], 'group_elem', None) is not None else z3.BoolVal(False))
+                           (getattr(ls['rrowgrp'], 'group_elem') == z3.Select(rg.arr, j) if getattr(ls['rrowgrp'], 'group_elem', None) is not None else z3.BoolVal(False)) if ls.env.has('rrowgrp') else z3.BoolVal(True))
               started = ls['rstarted'] if ls.env.has('rstarted') else True
               return z3.And(lg.pos >= 1, lg.pos <= lg.n, rg.pos >= 1, rg.pos <= rg.n, obj,
                             z3.BoolVal(started is True) if isinstance(started, bool) else _t(started),
@@ -150,7 +153,7 @@ def make(lo_flag, ro_flag, fname='iterjoin'):
                   exp = [('R', re_)] if ro else []
                   ctx.oblige('%s: key(L) > key(R): the right group has no partner on the left at all' % label, no_partner_right(rk))
               else:
-                  exp = [('LR', le, re_)]
+                  exp = [('LR', le, re_)] if fname != 'iterantijoin' else []     # antijoin drops matched groups
                   ctx.oblige('%s: neither smaller: the two keys are EQ' % label, EQ(lk, rk))
               got = []
               for e in events:
@@ -211,6 +214,15 @@ def make(lo_flag, ro_flag, fname='iterjoin'):
           loops = {(QN, ords['while']): wspec, (QN, ords['ltail']): lspec}
           if 'rtail' in ords:
               loops[(QN, ords['rtail'])] = rspec
+          for k_ in ords.get('rows_of_left_group', []):
+              def row_delta(ls, x, dout):
+                  ctx.oblige('antijoin: each row of an emitted left group is yielded once, as a tuple of itself', z3.And(dout.len == 1, _t(row_eq(out_row(dout, 0), x))))
+
+              def row_exit(ls, count):
+                  it.trace.append(('joinrows', getattr(ls['lrowgrp'], 'group_elem', 'EMPTY'), None))
+              rs = LoopSpec(delta=row_delta, label='rows of a left group')
+              rs.on_exit = row_exit
+              loops[(QN, k_)] = rs
           summ = dict(lib_order.SUMMARIES)
           summ['petl.comparison.comparable_itemgetter'] = lambda interp, args, kw, node: UCall('getkey', may_raise=False)
           summ[QN + '.<locals>.joinrows'] = joinrows_event
@@ -225,7 +237,8 @@ def make(lo_flag, ro_flag, fname='iterjoin'):
           L, R = sym_table(ctx, 'L', nmin=1), sym_table(ctx, 'R', nmin=1)
           leftouter, rightouter = lo_flag, ro_flag
           fn = closure_of(it, QN)
-          args = [L, R, 'a', 'b', leftouter, rightouter, sym_cell('missing'), None, None] if fname == 'iterjoin' else [L, R, 'a', 'b', sym_cell('missing'), None, None]
+          args = {'iterjoin': [L, R, 'a', 'b', leftouter, rightouter, sym_cell('missing'), None, None], 'iterlookupjoin': [L, R, 'a', 'b', sym_cell('missing'), None, None],
+                  'iterantijoin': [L, R, 'a', 'b']}[fname]
           res = run_generator(it, fn, args)
           if res.exc is not None:
               ctx.oblige('merge join: only FieldSelectionError escapes (unknown key field)', z3.BoolVal(res.exc.kind == 'FieldSelectionError'), res.exc.origin or '')
@@ -251,7 +264,12 @@ def make(lo_flag, ro_flag, fname='iterjoin'):
           def settled(side, elem):
               """is this group mentioned by an emission of the main phase? (formula)"""
               idx = 1 if side == 'L' else 2
-              return z3.Or([e[idx] == elem for e in main_ev if e[idx] is not None and not isinstance(e[idx], str)] or [z3.BoolVal(False)])
+              cl = [e[idx] == elem for e in main_ev if e[idx] is not None and not isinstance(e[idx], str)]
+              if 'i0' in st:
+                  # matched in the iteration that was cut short (a match may emit nothing: antijoin)
+                  cur0 = z3.Select(G[side].arr, st['i0'] if side == 'L' else st['j0'])
+                  cl.append(z3.And(elem == cur0, EQ(kL(st['i0']), kR(st['j0']))))
+              return z3.Or(cl or [z3.BoolVal(False)])
 
           def split_tail():
               seg = {'hl': [], 'lt': [], 'hr': [], 'rt': []}
@@ -306,3 +324,4 @@ for _l in (False, True):
     for _r in (False, True):
         make(_l, _r)
 make(True, False, 'iterlookupjoin')      # lookupjoin = left join on groups; joinrows(L, R) there takes the FIRST right row only (C06.joinrows / bounded)
+make(True, False, 'iterantijoin')        # antijoin = the left groups without a partner (matched groups dropped)
